@@ -54,6 +54,15 @@ def run(ctx, chk):
         run_witnesses(ctx, chk, "W", ['level'])
 
 
+def key_of_getmut(e, r):
+    """id term used as the key of a MAP.get_mut effect event (argument values are recorded at call time)"""
+    av = e[7] if len(e) > 7 else ()
+    k = av[1] if len(av) > 1 else (e[2][1] if len(e[2]) > 1 else None)
+    while isinstance(k, tuple) and k and k[0] == "refval":
+        k = k[1]
+    return k
+
+
 def _run(ctx, chk):
     for k, v in RULES.items():
         chk.rule(k, v)
@@ -100,6 +109,7 @@ def _run(ctx, chk):
     Q6.rule_remove_find(chk, "U6")
     Q6.rule_pop(chk, "U6", "U6", "U6", seq=True)
     Q6.who_may(chk, "U6")
+    LR.rule_inplace_same_id(ctx, chk, L, "U6")
     # ---------------- U2 / U5
     seen = LR.rule_removal_returns(ctx, chk, L, "U2", "U2", seq=True)
     b, res, _ = L.paths("update_order")
@@ -120,8 +130,8 @@ def _run(ctx, chk):
         fields = [f["name"] for v in upd["variants"] if v["name"] == arm for f in v["fields"]]
         pf = [f for f in fields if "price" in f]
         qev = L.queue_events(r.trace, r.facts)
-        pushes = [x for x in qev if x[0] in ("push", "park")]
-        takes = [x for x in qev if x[0] == "take"]
+        pushes = [x for x in qev if x[0] in ("push", "park", "rpush")]
+        takes = [x for x in qev if x[0] in ("take", "rtake")]
         stat_rm = [e for e in r.trace if e[0] == "eff" and e[1] == "STAT.record_order_removed"]
         v = r.value
         is_err = isinstance(v, tuple) and v[0] == "agg" and v[2] == "Err"
@@ -152,12 +162,17 @@ def _run(ctx, chk):
         # ---------------- U3 amend
         if takes and pushes:
             qf = [f for f in fields if "quantity" in f]
-            ok = len(takes) == 1 and len(pushes) == 1 and all(x[0] in ("take", "push", "find") for x in qev)
+            inplace = takes[0][0] == "rtake"
+            ok = len(takes) == 1 and len(pushes) == 1 and all(x[0] in ("take", "push", "find", "rtake", "rpush") for x in qev) \
+                and (pushes[0][0] == "rpush") == inplace
             chk.require(ok, "U5", "%s:%s:amend" % (fn, arm), b.span, "queue events on an amend path: %s" % [x[0] for x in qev], describe_path(r))
             if not ok:
                 continue
             o, o2 = takes[0][1], pushes[0][1]
             ids = {x[2][2][1] for x in qev if x[0] in ("take", "find") or x[2][1] in ("Q.find", "Q.remove")}
+            if inplace:
+                # the locked entry's key (a reference to the id argument of the in-place primitive)
+                ids = {key_of_getmut(takes[0][2], r)} | {x[2][2][1] for x in qev if x[2][1] in ("Q.find", "Q.remove")}
             chk.require(len(ids) == 1, "U5", "%s:%s:amend-same-id" % (fn, arm), b.span, "lookups on an amend path use different ids: %s" % [short(i) for i in ids], describe_path(r))
             inner = dict(v[3]).get("0") if isinstance(v, tuple) and v[0] == "agg" and v[2] == "Ok" else None
             got = dict(inner[3]).get("0") if isinstance(inner, tuple) and inner[0] == "agg" and inner[2] == "Some" else None
